@@ -15,15 +15,17 @@ import (
 	"github.com/boombuler/barcode"
 	"pgregory.net/rapid"
 	"verif/enc"
+	"verif/ref"
 )
 
 type ConcCase struct {
 	Specs      []EncSpec `json:"specs"`
 	Procs      int       `json:"gomaxprocs"`
-	Scale      bool      `json:"scale"`       // each goroutine also scales its result
-	ColdStart  bool      `json:"cold_start"`  // run in a fresh race-instrumented process instead of this one
-	Repeat     int       `json:"repeat"`      // in-process: how many times each goroutine repeats its call
-	SharedRead bool      `json:"shared_read"` // in-process: all goroutines read (fingerprint) ONE barcode made from Specs[0]
+	Scale      bool      `json:"scale"`           // each goroutine also scales its result
+	ColdStart  bool      `json:"cold_start"`      // run in a fresh race-instrumented process instead of this one
+	Group      int       `json:"group,omitempty"` // cold start: release the calls in consecutive groups of this size (0: all at once)
+	Repeat     int       `json:"repeat"`          // in-process: how many times each goroutine repeats its call
+	SharedRead bool      `json:"shared_read"`     // in-process: all goroutines read (fingerprint) ONE barcode made from Specs[0]
 }
 
 // workFingerprint: what one goroutine computes.
@@ -68,7 +70,11 @@ func checkC16(t TB, c ConcCase) {
 	if c.ColdStart {
 		// after the contention the same process runs the whole RS-degree pool sequentially: a cache that was
 		// corrupted by racing first requests shows in later, purely sequential calls
-		out, stderr, code, err := runOneshot2(true, c.Specs, rsPool, "concurrent", fmt.Sprint(c.Procs))
+		args := []string{"concurrent", fmt.Sprint(c.Procs)}
+		if c.Group > 0 {
+			args = append(args, fmt.Sprint(c.Group))
+		}
+		out, stderr, code, err := runOneshot2(true, c.Specs, rsPool, args...)
 		switch {
 		case err != nil || code == 2:
 			t.Fatalf("INFRASTRUCTURE: cannot run the cold-start helper: %v (exit %d) %s", err, code, tail(stderr, 300))
@@ -230,6 +236,45 @@ var familyFirstCalls = []EncSpec{
 	{Fam: "code39", Content: BStr("full Ascii!"), F2: true}, {Fam: "code93", Content: BStr("CODE93"), F1: true}, {Fam: "code93", Content: BStr("full~93"), F1: true, F2: true},
 	{Fam: "codabar", Content: BStr("A12-3$B")}, {Fam: "ean", Content: BStr("1234567")}, {Fam: "ean", Content: BStr("590123412345")},
 	{Fam: "2of5", Content: BStr("12345")}, {Fam: "itf", Content: BStr("123456")},
+}
+
+// sizeClassSpecs: two different contents for every size class of every 2D symbology (40 QR versions, 24 DataMatrix
+// sizes, 36 Aztec sizes, 9 PDF417 levels), same-class calls adjacent: state that is built lazily PER SIZE CLASS
+// (interleaving tables of one symbol size, field tables of one word size, factor tables of one level) is only
+// raced for by first calls of that very class.
+func sizeClassSpecs(k int) []EncSpec {
+	var out []EncSpec
+	for v := 1; v <= 40; v++ {
+		if !thorough() && k > 2 && v > 10 && v%4 != 0 { // quick tier: every version up to 10, then every fourth
+			continue
+		}
+		l := v % 4
+		n := qrCapacity(v, l, qrIndicator[3])
+		for j := 0; j < k; j++ {
+			a := fillPattern(3, int64(1000*j+v), n-j%2)
+			a[0] = byte(0x80 + j)
+			out = append(out, EncSpec{Fam: "qr", Content: BStr(a), A: l, B: 3})
+		}
+	}
+	for _, sz := range ref.DMSizes {
+		for j := 0; j < k; j++ {
+			out = append(out, EncSpec{Fam: "datamatrix", Content: BStr(dmFit([]byte{byte('a' + j)}, max(sz.Data-j%2, 1), byte('A'+j)))})
+		}
+	}
+	for l := -4; l <= 32; l++ {
+		if l == 0 {
+			continue
+		}
+		for j := 0; j < k; j++ {
+			out = append(out, EncSpec{Fam: "aztec", Content: BStr(fmt.Sprintf("Aztec %d/%d%s", l, j, []string{"", "\x80"}[j%2])), A: 23, B: l})
+		}
+	}
+	for l := 0; l <= 8; l++ {
+		for j := 0; j < k; j++ {
+			out = append(out, EncSpec{Fam: "pdf417", Content: BStr(fmt.Sprintf("PDF417 level %d, call %d, 1234567890123456%s", l, j, []string{"", "\xfe\xff"}[j%2])), A: l})
+		}
+	}
+	return out
 }
 
 // calls whose error paths start producer goroutines inside the QR encoder
@@ -497,6 +542,16 @@ func TestC16ColdStart(t *testing.T) {
 				}
 			}
 			cases = append(cases, ConcCase{Specs: fam, Procs: p, ColdStart: true})
+			// first calls of every size class of every 2D symbology overlap
+			// all at once (two calls per class), and one class at a time (four calls per class, released together)
+			if p == 4 && (thorough() || r == 0) {
+				sc := sizeClassSpecs(2)
+				k := (r * 31) % len(sc) &^ 1
+				cases = append(cases, ConcCase{Specs: append(append([]EncSpec{}, sc[k:]...), sc[:k]...), Procs: p, ColdStart: true})
+			}
+			if p == 16 && (thorough() || r == 0) {
+				cases = append(cases, ConcCase{Specs: sizeClassSpecs(4), Procs: p, ColdStart: true, Group: 4})
+			}
 		}
 	}
 	parallelFor(len(cases), 4, func(i int) {
